@@ -199,3 +199,101 @@ Proof.
     rewrite !unhex2_hex2 by lia; [|reflexivity].
   f_equal. f_equal. lia.
 Qed.
+
+(* ------------------------------------------------------------------------------------------------------------ *)
+(* fixed-point numbers                                                                                           *)
+
+Lemma dec_head n : exists d r, dec n = d :: r /\ is_digit d = true.
+Proof.
+  destruct (dec_spec n) as (_ & Hd & Hne). destruct (dec n) as [|d r]; [congruence|].
+  cbn [forallb] in Hd. apply andb_prop in Hd as [Hd _]. eauto.
+Qed.
+
+Lemma digit_val_digit d : d < 10 -> digit_val (digit d) = Some (Z.of_N d).
+Proof.
+  intros H. unfold digit_val, digit, is_digit. replace ((48 <=? 48 + d) && (48 + d <=? 57)) with true by lia.
+  f_equal. lia.
+Qed.
+
+Lemma read_unsigned_dec ip (frac : list N) (f : Z) :
+  (frac = [] /\ f = 0%Z) \/ (exists ds, frac = 46 :: ds /\ read_frac ds = Some f) ->
+  read_unsigned (dec ip ++ frac) = Some (1000 * Z.of_N ip + f)%Z.
+Proof.
+  intros H. destruct (dec_head ip) as (d & r & E & Hd). unfold read_unsigned.
+  rewrite E at 1. cbn [app]. rewrite Hd.
+  destruct H as [[-> ->]|(ds & -> & Hf)].
+  - rewrite take_num_dec by reflexivity. f_equal. lia.
+  - rewrite take_num_dec by reflexivity. change (46 =? 46) with true. cbv iota. now rewrite Hf.
+Qed.
+
+Lemma read_fx_sign (neg : bool) body (a : Z) :
+  read_unsigned body = Some a -> (exists d r, body = d :: r /\ is_digit d = true) ->
+  read_fx ((if neg then [45] else []) ++ body) = Some (if neg then (- a)%Z else a).
+Proof.
+  intros Hb (d & r & E & Hd). destruct neg.
+  - cbn [app read_fx]. change (45 =? 45) with true. cbv iota. now rewrite Hb.
+  - cbn [app]. unfold read_fx. rewrite E. rewrite <- E.
+    replace (d =? 45) with false by (unfold is_digit in Hd; lia). exact Hb.
+Qed.
+
+Lemma read_fx_signed (t : Z) body (a : Z) :
+  read_unsigned body = Some a -> (exists d r, body = d :: r /\ is_digit d = true) ->
+  (t < 0 -> t = - a)%Z -> (0 <= t -> t = a)%Z ->
+  read_fx ((if (t <? 0)%Z then [45] else []) ++ body) = Some t.
+Proof.
+  intros Hb Hh Hn Hp. rewrite (read_fx_sign _ body a Hb Hh). f_equal. destruct (t <? 0)%Z eqn:Es; lia.
+Qed.
+
+Lemma app_head_digit n (rest : list N) : exists d r, dec n ++ rest = d :: r /\ is_digit d = true.
+Proof. destruct (dec_head n) as (d & r & -> & Hd). exists d, (r ++ rest). auto. Qed.
+
+(* the text printed by f64 Display in the model denotes exactly the value *)
+Theorem read_fx_to_string t : read_fx (fx_to_string t) = Some t.
+Proof.
+  unfold fx_to_string.
+  set (a := Z.abs_N t). set (ip := a / 1000). set (fr := a mod 1000).
+  set (d1 := fr / 100). set (d2 := (fr / 10) mod 10). set (d3 := fr mod 10).
+  assert (Hfr : fr < 1000) by (unfold fr; lia).
+  assert (Hd1 : d1 < 10) by (unfold d1; lia). assert (Hd2 : d2 < 10) by (unfold d2; lia).
+  assert (Hd3 : d3 < 10) by (unfold d3; lia).
+  assert (Ha : Z.of_N a = Z.abs t) by (unfold a; lia).
+  assert (Hval : Z.of_N a = (1000 * Z.of_N ip + 100 * Z.of_N d1 + 10 * Z.of_N d2 + Z.of_N d3)%Z)
+    by (unfold ip, d1, d2, d3, fr; lia).
+  destruct (negb (d3 =? 0)) eqn:E3; [|destruct (negb (d2 =? 0)) eqn:E2; [|destruct (negb (d1 =? 0)) eqn:E1]].
+  - apply (read_fx_signed t _ (1000 * Z.of_N ip + (100 * Z.of_N d1 + 10 * Z.of_N d2 + Z.of_N d3))%Z);
+      [|apply app_head_digit|lia|lia].
+    apply read_unsigned_dec. right. eexists. split; [reflexivity|]. cbn [read_frac].
+    now rewrite !digit_val_digit by assumption.
+  - apply (read_fx_signed t _ (1000 * Z.of_N ip + (100 * Z.of_N d1 + 10 * Z.of_N d2))%Z);
+      [|apply app_head_digit|lia|lia].
+    apply read_unsigned_dec. right. eexists. split; [reflexivity|]. cbn [read_frac].
+    now rewrite !digit_val_digit by assumption.
+  - apply (read_fx_signed t _ (1000 * Z.of_N ip + (100 * Z.of_N d1))%Z);
+      [|apply app_head_digit|lia|lia].
+    apply read_unsigned_dec. right. eexists. split; [reflexivity|]. cbn [read_frac].
+    now rewrite !digit_val_digit by assumption.
+  - apply (read_fx_signed t _ (1000 * Z.of_N ip + 0)%Z); [|apply app_head_digit|lia|lia].
+    apply read_unsigned_dec. left. auto.
+Qed.
+
+(* the `{:.2}` text denotes a multiple of 0.01 within 0.005 of the value (the value itself when it is a multiple of 0.01) *)
+Theorem read_fx_fixed2 t : exists t', read_fx (fx_fixed2 t) = Some t' /\
+  (Z.rem t' 10 = 0 /\ Z.abs (t' - t) <= 5 /\ (Z.rem t 10 = 0 -> t' = t))%Z.
+Proof.
+  unfold fx_fixed2.
+  set (a := Z.abs_N t). set (q := a / 10). set (r := a mod 10).
+  set (q' := if (5 <? r) || (r =? 5) && N.odd q then q + 1 else q).
+  assert (Ha : Z.of_N a = Z.abs t) by (unfold a; lia).
+  assert (Hq : (q' = q \/ q' = q + 1) /\ (r = 0 -> q' = q) /\ (q' = q -> r <= 5) /\ (q' = q + 1 -> 5 <= r)).
+  { unfold q'. destruct ((5 <? r) || (r =? 5) && N.odd q) eqn:E; repeat split; try lia. }
+  assert (Hr : a = 10 * q + r /\ r < 10) by (unfold q, r; lia).
+  set (e1 := (q' / 10) mod 10). set (e2 := q' mod 10).
+  assert (He1 : e1 < 10) by (unfold e1; lia). assert (He2 : e2 < 10) by (unfold e2; lia).
+  set (av := (1000 * Z.of_N (q' / 100) + (100 * Z.of_N e1 + 10 * Z.of_N e2))%Z).
+  assert (Hav : av = (10 * Z.of_N q')%Z) by (unfold av, e1, e2; lia).
+  exists (if (t <? 0)%Z then (- av)%Z else av). split.
+  - apply read_fx_sign; [|apply app_head_digit].
+    apply read_unsigned_dec. right. eexists. split; [reflexivity|]. cbn [read_frac].
+    now rewrite !digit_val_digit by assumption.
+  - rewrite Hav. destruct (t <? 0)%Z eqn:Es; lia.
+Qed.
